@@ -42,7 +42,7 @@ Theorem C18_levels_are_depth_counts :
     nth (S k) (levels T) (0, 0, 0) =
       (count_inner (upto_depth k r) + count_leaf (upto_depth k r),
        count_inner (upto_depth k r), count_leaf (upto_depth k r)).
-Proof. intros T r k Hr Hk. split; [exact (levels_length T r Hr)|exact (levels_depth T r k Hr Hk)]. Qed.
+Proof. exact levels_depth_counts. Qed.
 Print Assumptions C18_levels_are_depth_counts.
 
 (* the leaves of a built tree, left to right, are exactly the retained keys in
